@@ -38,6 +38,10 @@ def units(tier, seed):
     out = []
     for names, A, (lb, ub), K, bl in AL.systems(shapes, seed=seed, order=(1 if tier == "quick" else 2), bounds=["ub-finite", "lb-mixed", "scalar"], Ks=["default", "scalar", "vector", "matrix-pos"], seeded=(tier != "quick")):
         out.append(dict(names=names, spec=B.spec_of(A, lb, ub, K, bl), tier=tier))
+        if names["A"] == "asc" and names["K"] == "default" and names["baseline"] == "default" and names["bounds"] in ("ub-finite", "lb-mixed"):
+            # the same system with strongly non-uniform receptor weights (the requested deltas are absolute tolerances, whatever the weights)
+            m_ = A.shape[0]
+            out.append(dict(names=dict(names, receptor_weights="vector"), spec=B.spec_of(A, lb, ub, K, bl, w=np.array([1.0, 0.1, 0.05, 0.5, 0.02])[:m_]), tier=tier))
     return out
 
 
